@@ -79,6 +79,48 @@ def close_scenarios():
     (was, is_open, is_conn, unclosed), net, _ = vloop.run(connected)
     out["an open socket is disconnected by close"] = was and not is_conn and unclosed == []
     out["afterwards the socket is not open"] = out["afterwards the socket is not open"] and is_open is False
+
+    # close() while a connection attempt is in flight and the disconnect is held up (a slow subscriber, wait_closed)
+    ok = True
+    for latency, sub_delay, already in ((0.1, 0.5, False), (0.3, 1.0, False), (0.1, 0.5, True)):
+        async def racing(loop, net, latency=latency, sub_delay=sub_delay, already=already):
+            S, sock = _sock(loop, R)
+            notes = []
+
+            async def sub(*, connected):
+                notes.append((loop.time(), connected))
+                if not connected:
+                    await asyncio.sleep(sub_delay)
+            sock.subscribe_on_connection_changed(sub)
+            if already:
+                # connected; the peer resets while close() is disconnecting: the read loop asks for a reconnect
+                await sock.open_socket()
+                await asyncio.sleep(0.1)
+                net.default = ("accept", latency)
+                rd = sock._reader
+                t = loop.create_task(sock.close())
+                await asyncio.sleep(0)
+                if rd is not None:
+                    rd.set_exception(ConnectionResetError("peer reset"))
+                t_call = loop.time()
+                await t
+            else:
+                net.default = ("accept", latency)
+                await sock.open_socket()
+                await asyncio.sleep(latency / 2)
+                t_call = loop.time()
+                await sock.close()
+            await asyncio.sleep(60.0)
+            return t_call, sock.is_open, sock.is_connected, net.open_unclosed(), [n for n in notes if n[1] and n[0] >= t_call]
+        try:
+            (t_call, is_open, is_conn, unclosed, late_connected), net, _ = vloop.run(racing)
+            ok = ok and is_open is False and is_conn is False and unclosed == [] and late_connected == []
+        except KeyboardInterrupt:
+            raise
+        except BaseException:  # noqa: BLE001
+            ok = False
+    out["the socket is marked not open before close first suspends (a connection attempt that completes during "
+        "the disconnect is dropped, not adopted)"] = ok
     return out
 
 
